@@ -679,6 +679,7 @@ func c13R3(p *core.Program, r *core.Report) {
 	}
 	// the record is stored under the package's path after construction
 	stored := false
+	var storeStmt *ast.AssignStmt
 	ast.Inspect(reg.Body, func(n ast.Node) bool {
 		as, ok := n.(*ast.AssignStmt)
 		if !ok || len(as.Lhs) != 1 {
@@ -692,11 +693,30 @@ func c13R3(p *core.Program, r *core.Report) {
 			e, _ := core.Resolve(info, reg.Body, as.Rhs[0])
 			if c, ok := e.(*ast.CallExpr); ok && c == ctor[0] && g.Dominates(cp, g.PointOf(as)) {
 				stored = true
+				storeStmt = as
 			}
 		}
 		return true
 	})
 	r.Check(stored, rule, reg, "constructed record is stored in the universe", ctor[0].Pos(), "u.pkgs[p.PkgPath] = <newPkg result>", "the result of newPkg is not stored into the universe's package table")
+	if storeStmt != nil {
+		// ... on every path: once the record is made nothing - an error of the directory hash, a filter - lets the
+		// closure return without publishing it (importers would see nil for a package that was loaded)
+		sp := g.PointOf(storeStmt)
+		at, skips := g.Reach(cp, false, cfgx.Query{
+			Target: func(q cfgx.Point) bool { return g.IsExit(q) },
+			Cut:    func(q cfgx.Point) bool { return q == sp },
+		})
+		why := ""
+		if skips {
+			why = "the registering closure can return after newPkg without storing the record"
+			if n := at.Node(); n != nil {
+				why += " (at " + p.Pos(n.Pos()) + ")"
+			}
+			why += ": a package that was loaded and type-checked is missing from the universe, Universe.Package answers nil for it and every importer's Imports() holds nil under its path"
+		}
+		r.Check(!skips, rule, reg, "the constructed record is published on every path", storeStmt.Pos(), "every path from newPkg to the closure's end passes the store", why)
+	}
 	// presence: the expression says "the universe has a package under key": the ok of a comma-ok lookup in the package
 	// table, or a call of a predicate of the package whose body is that lookup (`_, ok := u.pkgs[path]; return ok`,
 	// `return u.pkgs[path] != nil`) - the key is then the call's argument.
